@@ -225,14 +225,15 @@ def bool_text(sx, fam):
 @harness('C05', params=[(g, form) for g in STR_GRID for form in ('str', 'bin')], label=lambda p: '%s as msgpack %s' % (p[0][0], p[1]),
          functions=['spyne.protocol.dictdoc.hier.HierDictDocument._from_dict_value',
                     'spyne.model.primitive.string.Unicode.validate_string'],
-         bounds={'text': '0..5 characters over the alphabet a b c d 0 9 e-acute (every string), handed over as msgpack str or as msgpack bin '
+         bounds={'text': '0..5 characters over the alphabet a b c d 0 9 (every string) followed by 0..2 e-acutes, handed over as msgpack str or as msgpack bin '
                          '(the form spyne itself writes)'})
 def msgpack_str_native(sx, p):
     """MessagePack: the string facets decide the same way whether the text arrives as str or as bin"""
     (name, T, lo, hi, pattern, values), form = p
     L = sx.choose('len', [0, 1, 2, 3, 4, 5])
-    # (e-acute: one character, two bytes - the facets count characters)
-    text = sx.text('t', L, alphabet=u'abcd09\xe9') if L else u''
+    # (a tail of e-acutes - one character, two bytes each - so that byte count and character count differ; the non-ASCII
+    # characters are concrete because the engine's UTF-8 decoder takes symbolic bytes below 0x80 only)
+    text = (sx.text('t', L, alphabet='abcd09') if L else u'') + sx.choose('tail', [u'', u'\xe9', u'\xe9\xe9'])
     wire = text if form == 'str' else text.encode('utf8')
     out = run_soft(lambda: MSGPACK._from_dict_value(CTX, 'k', T, wire, MSGPACK.validator))
     ok = _str_ok(sx, text, lo, hi, pattern, values)
@@ -532,18 +533,19 @@ class PosInner(ComplexModel):
 
 class PosOuter(ComplexModel):
     __namespace__ = 'tns'
-    _type_info = [('top', SMALL), ('inner', PosInner), ('arr', Array(SMALL)), ('many', SMALL.customize(max_occurs=3))]
+    _type_info = [('top', SMALL), ('inner', PosInner), ('arr', Array(SMALL)), ('many', SMALL.customize(max_occurs=3)),
+                  ('inner2', PosInner)]       # a second member of the same class
 
 
-POSITIONS = ['top', 'nested', 'array-member', 'repeated-member', 'xml-attribute']
+POSITIONS = ['top', 'nested', 'array-member', 'repeated-member', 'xml-attribute', 'second-of-a-class']
 
 
-@harness('C05', params=[(pos, fam) for pos in POSITIONS for fam in ('xml', 'json')] + [(pos, 'http') for pos in ('top', 'nested', 'xml-attribute')],
+@harness('C05', params=[(pos, fam) for pos in POSITIONS for fam in ('xml', 'json')] + [(pos, 'http') for pos in ('top', 'nested', 'xml-attribute', 'second-of-a-class')],
          label=lambda p: '%s %s' % p,
          functions=['spyne.protocol.xml.XmlDocument.complex_from_element', 'spyne.protocol.xml.XmlDocument.array_from_element',
                     'spyne.protocol.dictdoc.hier.HierDictDocument._doc_to_object'],
          bounds={'value': 'text of 1..4 characters over 0-9 - x (XML) / every JSON integer (JSON) for an UnsignedInteger8(le=200) '
-                          'at five nesting positions'})
+                          'at six nesting positions (the last: the second of two members of one class)'})
 def constraint_positions(sx, p):
     """the same constraint gives the same verdict wherever the value sits: top-level member, nested field, array
     member, repeated member, XML attribute"""
@@ -562,6 +564,8 @@ def constraint_positions(sx, p):
             kids = [e('arr', kids=[e('unsignedByte', '7'), e('unsignedByte', text)])]
         elif pos == 'repeated-member':
             kids = [e('many', '7'), e('many', text)]
+        elif pos == 'second-of-a-class':
+            kids = [e('inner', kids=[e('v', '7')]), e('inner2', kids=[e('v', text)])]
         else:
             kids = [e('inner', kids=[e('v', '7')], att={'att': text})]
         out = run_soft(lambda: XML.from_element(CTX, PosOuter, e('o', kids=kids)))
@@ -570,13 +574,14 @@ def constraint_positions(sx, p):
         text = sx.text('t', L, alphabet='0123456789-x')
         lit, want = int_literal(sx, text)
         ok = sx.And(lit, want >= 0, want <= 200)
-        key = {'top': 'top', 'nested': 'inner.v', 'xml-attribute': 'inner.att'}[pos]
-        out = run_soft(lambda: HTTP.simple_dict_to_object(CTX, sx.mkdict([(key, [text])]), PosOuter, HTTP.validator))
+        key = {'top': 'top', 'nested': 'inner.v', 'xml-attribute': 'inner.att', 'second-of-a-class': 'inner2.v'}[pos]
+        pairs = [(key, [text])] + ([('inner.v', ['7'])] if pos == 'second-of-a-class' else [])
+        out = run_soft(lambda: HTTP.simple_dict_to_object(CTX, sx.mkdict(pairs), PosOuter, HTTP.validator))
     else:
         want = sx.int('v')
         ok = sx.And(want >= 0, want <= 200)
         doc = {'top': {'top': want}, 'nested': {'inner': {'v': want}}, 'array-member': {'arr': [7, want]},
-               'repeated-member': {'many': [7, want]},
+               'repeated-member': {'many': [7, want]}, 'second-of-a-class': {'inner': {'v': 7}, 'inner2': {'v': want}},
                'xml-attribute': {'inner': {'v': 7, 'att': want}}}[pos]        # outside XML an XmlAttribute member is a plain member
         out = run_soft(lambda: JSON._doc_to_object(CTX, PosOuter, doc, JSON.validator))
     sx.observe('accepted', out.accepted)
@@ -584,7 +589,8 @@ def constraint_positions(sx, p):
         return sx.And(sx.Not(ok), is_client_validation_fault(out.fault))
     o = out.value
     got = {'top': lambda: o.top, 'nested': lambda: o.inner.v, 'array-member': lambda: o.arr[1],
-           'repeated-member': lambda: o.many[1], 'xml-attribute': lambda: o.inner.att}[pos]()
+           'repeated-member': lambda: o.many[1], 'xml-attribute': lambda: o.inner.att,
+           'second-of-a-class': lambda: o.inner2.v}[pos]()
     return sx.And(ok, sx.eq(got, want))
 
 
